@@ -72,6 +72,39 @@ pub fn uint_at(bytes: &[u8], at: usize) -> Option<u64> {
     d.u64().ok()
 }
 
+/// blocks of the immutable-db chunk files in test_data (concatenated CBOR items), every `step`-th
+pub fn chunk_blocks(step: usize) -> Vec<Vec<u8>> {
+    let mut res = vec![];
+    for f in ["01285.chunk", "01836.chunk", "02019.chunk"] {
+        if let Ok(data) = std::fs::read(format!("{}/test_data/{}", repo_dir(), f)) {
+            let (mut at, mut k) = (0usize, 0usize);
+            while at < data.len() {
+                let Some(e) = item_end(&data, at) else { break };
+                if e <= at { break; }
+                if k % step.max(1) == 0 { res.push(data[at..e].to_vec()); }
+                at = e; k += 1;
+            }
+        }
+    }
+    res
+}
+
+/// a small epoch-boundary block `[0, [header, [], extra]]` built at the byte level from the
+/// header and extra spans of test_data/genesis.block (whose 650 kB body is a list of stakeholder ids)
+pub fn small_ebb() -> Option<Vec<u8>> {
+    let txt = std::fs::read_to_string(format!("{}/test_data/genesis.block", repo_dir())).ok()?;
+    let b = hex::decode(txt.trim()).ok()?;
+    let top = children(&b, 0)?;
+    if uint_at(&b, top.first()?.0)? != 0 { return None; }
+    let inner = children(&b, top.get(1)?.0)?;
+    if inner.len() != 3 { return None; }
+    let mut out = vec![0x82, 0x00, 0x83];
+    out.extend_from_slice(&b[inner[0].0..inner[0].1]);
+    out.push(0x80);
+    out.extend_from_slice(&b[inner[2].0..inner[2].1]);
+    Some(out)
+}
+
 pub struct RawBlock {
     pub tag: u64,
     /// span of the header item (element 0 of the inner array)
